@@ -71,6 +71,8 @@ def _render(node: ast.AST) -> tuple[str, dict[str, ast.AST]]:
     for v in node.values:
         if isinstance(v, ast.Constant):
             parts.append(str(v.value))
+        elif isinstance(v, ast.FormattedValue) and isinstance(v.value, ast.Constant) and isinstance(v.value.value, (str, int)) and v.conversion == -1:
+            parts.append(str(v.value.value))  # a literal passed through a (now inlined) helper parameter
         elif isinstance(v, ast.FormattedValue):
             ph = _ph(norm(v.value))
             holes[ph] = v.value
